@@ -89,6 +89,8 @@ fn raw_pool() -> Vec<(u16, Vec<u8>)> {
     // PASSWORD-ALGORITHM selecting SHA-256, USERHASH
     v.push((0x001d, vec![0, 2, 0, 0]));
     v.push((0x001e, vec![0x5a; 32]));
+    // a relayed message's tail: the value ends in what looks like a FINGERPRINT attribute (index 35)
+    v.push((0x0013, [&[0x00u8, 0x01, 0x00, 0x08, 0x21, 0x12, 0xa4, 0x42, 1, 2, 3, 4, 5, 6, 7, 8, 9, 10, 11, 12][..], &[0x80, 0x28, 0x00, 0x04, 0xde, 0xad, 0xbe, 0xef][..]].concat()));
     v
 }
 
@@ -753,7 +755,7 @@ pub fn run(ctx: &mut Ctx) {
         for _ in 0..len {
             ops.push(match rng.below(20) {
                 0..=7 => Op::Typed(rng.below(16) as u8),
-                8..=13 => Op::Raw(rng.below(35) as u8),
+                8..=13 => Op::Raw(rng.below(36) as u8),
                 14 => Op::Dup,
                 15 => Op::Sha1,
                 16 => {
